@@ -41,6 +41,17 @@ CLAIMED = {
         note="Decided essentially as a whole. Loop paths are enumerated up to 3 iterations and generalised by the loop's "
              "uniform shape (counted loop; C01 rule 5 checks the shape).",
         design="§4 C16"),
+    "C19": dict(
+        technique="path-enumerated interval partition of the stack gate under several generated configurations, field who-may-write, must-pass-through over opener callbacks, SCC structural-descent analysis",
+        text="The refusal set of _cbor_stack_push (as facts on stack->size along its enumerated paths) must contain L and "
+             "nothing below L, for the default L and for re-generated configurations (quick: 2048 and 3; thorough: "
+             "1,2,3,8,64,2048) so a hard-coded constant is caught; size is written only by the stack module; each of the 7 "
+             "opener callbacks wired in cbor_load pushes its item on every successful path and on a failed push releases "
+             "it and raises creation_failed; every recursive SCC descends one tree level per cycle (or pops a frame), "
+             "with no variable-size frames.",
+        note="Does not decide that a depth-L input is accepted (language clause). Native stack use is bounded by argument "
+             "from the descent rule (depth of recursion <= tree depth <= L), frame sizes being static.",
+        design="§4 C19"),
     "C13": dict(
         technique="whole-library who-may-call + effect summaries (allocator call graph), block-provenance rule against the extracted constructor table",
         text="Decided as a whole by static who-may-call/effect analysis over all 20 units: external-symbol inventory "
